@@ -218,19 +218,46 @@ def build_param(param, d):
 
 
 def build_class(param, case):
+    """the class as first declared: parameters listed in `added` are left out, those in `replaced`
+    are declared with their old declaration"""
     ps = case['params']
     assert ps[0]['name'] == 'name' and ps[0]['type'] == 'String'
-    return type(CLS_NAME, (param.Parameterized,), {d['name']: build_param(param, d) for d in ps[1:]})
+    added = set(case.get('added') or [])
+    old = {n: d for n, d in case.get('replaced') or []}
+    return type(CLS_NAME, (param.Parameterized,),
+                {d['name']: build_param(param, old.get(d['name'], d)) for d in ps[1:] if d['name'] not in added})
 
 
 def build_object(param, case):
-    """-> (class, object to serialise, names, types) or raises what the constructor raises"""
+    """-> (class, object to serialise, names) or raises what the constructor raises.
+    History (optional): the class / object is serialised once (and its schema taken), then the
+    parameters in `added` / `replaced` are installed with `Cls.param.add_parameter`, then (instance
+    level) their values are assigned."""
     cls = build_class(param, case)
     names = [d['name'] for d in case['params']]
+    later = set(case.get('added') or []) | {n for n, _ in case.get('replaced') or []}
     if case['level'] == 'class':
+        obj = cls
+    else:
+        vals = {n: dec_val(v) for n, v in zip(names, case['values']) if n not in later}
+        obj = cls(**vals)
+    if later:
+        for o in (obj, cls):
+            try:
+                o.param.serialize_parameters()
+                o.param.serialize_parameters(subset=[names[-1]])
+                o.param.schema()
+            except Exception:
+                pass
+        for d in case['params'][1:]:
+            if d['name'] in later:
+                cls.param.add_parameter(d['name'], build_param(param, d))
+        if obj is not cls:
+            for n, v in zip(names, case['values']):
+                if n in later:
+                    setattr(obj, n, dec_val(v))
+    if obj is cls:
         return cls, cls, names
-    vals = {n: dec_val(v) for n, v in zip(names, case['values'])}
-    obj = cls(**vals)
     # per-instance edits of Parameter attributes, then values that may be valid only under the edit
     for n, slot, v in case.get('edits') or []:
         if slot == 'bounds':
@@ -241,6 +268,37 @@ def build_object(param, case):
     for n, v in case.get('final') or []:
         setattr(obj, n, dec_val(v))
     return cls, obj, names
+
+
+def gen_history(rng, case):
+    """the same final declaration and state, reached through serialize -> add_parameter -> …"""
+    ps = case['params'][1:]
+    if any(d['type'] == 'Selector' and d['objects'] == [] for d in ps):
+        return case
+    added, replaced = [], []
+    for d in ps:
+        r = rng.random()
+        if r < 0.35:
+            added.append(d['name'])
+        elif r < 0.55 and d['type'] != 'String':
+            replaced.append([d['name'], {'name': d['name'], 'type': 'String', 'allow_None': None, 'default': enc_val('x'),
+                                         'doc': None, 'label': 'old'}])
+    if not added and not replaced:
+        added = [ps[-1]['name']]
+    return with_history(case, added, replaced)
+
+
+def with_history(case, added, replaced):
+    """parameters installed later by add_parameter come after the declared ones, in the order of
+    installation (a replaced parameter keeps its place)"""
+    idx = list(range(len(case['params'])))
+    order = [i for i in idx if case['params'][i]['name'] not in added] + \
+            [i for i in idx if case['params'][i]['name'] in added]
+    vals = case.get('values')
+    return dict(case, params=[case['params'][i] for i in order],
+                values=None if vals is None else [vals[i] for i in order],
+                added=[case['params'][i]['name'] for i in order if case['params'][i]['name'] in added],
+                replaced=replaced)
 
 
 def edited_params(case):
@@ -654,11 +712,18 @@ def value_of(case, name):
 
 def shrink_case(case):
     for c in _shrink_case(case):
+        names = {d['name'] for d in c['params']}
         if case.get('edits') or case.get('final'):
-            names = {d['name'] for d in c['params']}
             c = dict(c, edits=[e for e in c.get('edits') or [] if e[0] in names],
                      final=[f for f in c.get('final') or [] if f[0] in names])
+        if case.get('added') or case.get('replaced'):
+            c = dict(c, added=[n for n in c.get('added') or [] if n in names],
+                     replaced=[r for r in c.get('replaced') or [] if r[0] in names])
         yield c
+    for k in range(len(case.get('added') or [])):
+        yield dict(case, added=case['added'][:k] + case['added'][k + 1:])
+    for k in range(len(case.get('replaced') or [])):
+        yield dict(case, replaced=case['replaced'][:k] + case['replaced'][k + 1:])
     for k, e in enumerate(case.get('edits') or []):
         # drop one edit together with the final value of that parameter
         rest = case['edits'][:k] + case['edits'][k + 1:]
